@@ -138,6 +138,20 @@ def impl_side(rep, pid, runs, judge):
             if not real and problems:
                 rep.notes.append("probe scenario %s inconclusive: %s" % (a, problems))
                 continue
+        if real:
+            # timing never decides alone: a scenario that fails is run a second time (after the machine had a moment);
+            # only a failure that shows again counts against the code
+            import time as _t
+            _t.sleep(1.0)
+            d2 = probe.run_one(a)
+            out2 = judge(a, d2)
+            problems2, known2 = out2 if isinstance(out2, tuple) else (out2, [])
+            real2 = [x for x in problems2 if not x.startswith("harness:")]
+            if not real2:
+                rep.notes.append("probe scenario %s failed once and passed on the re-run (timing): %s" % (a, real[:1]))
+                real, known, d = [], known2, d2
+            else:
+                real, d = real2, d2
         rep.traces += 1
         rep.oblige(not real)
         rep.count("probe_scenario", "%s/%s" % (a[0], a[1]))
@@ -202,7 +216,7 @@ def model_vs_probe(rep, pid, scenario, combos):
             items.append(("p%d" % n, "burst_scn (elab h_%d) %d %d %d" % (n, ix["hold"], ix["tick"], p["k"])))
             runs.append(["burst", c["lib"], c["ch"], "k=%d" % p["k"]])
         else:
-            for fl in ("false", "true"):
+            for fl in ("0", "1", "2"):
                 items.append(("p%d_%s" % (n, fl), "fault_scn (elab h_%d) %s %d %d %d %d %d %d %d" % (n, fl, ix["hold"], ix["boom"], ix["add"], ix["tick"], ix["get"], p["waiting"], p["later"])))
             runs.append(["fault", c["lib"], c["ch"], "waiting=%d" % p["waiting"], "later=%d" % p["later"]])
         keep.append(n)
@@ -226,11 +240,13 @@ def model_vs_probe(rep, pid, scenario, combos):
             detail = {"predicted_returned": pred, "observed_returned": seen}
         else:
             import re
-            pa = [int(x) for x in re.findall(r"\d+", vals["p%d_false" % n])]
-            pb = [int(x) for x in re.findall(r"\d+", vals["p%d_true" % n])]
+            pa = [int(x) for x in re.findall(r"\d+", vals["p%d_0" % n])]
+            pb = [int(x) for x in re.findall(r"\d+", vals["p%d_1" % n])]
+            pc = [int(x) for x in re.findall(r"\d+", vals["p%d_2" % n])]
             seen = [code[c["outcome"]] for c in d["calls"] if c["kind"] != "boom"]
-            ok = len(seen) == len(pa) and all(s in (x, y) for s, x, y in zip(seen, pa, pb))
-            detail = {"predicted (no interleaving)": pa, "predicted (blocked senders slip in)": pb, "observed": seen, "legend": "0 returned, 1 panicked, 2 hung; adds then later calls"}
+            ok = len(seen) == len(pa) and all(s in (x, y, z) for s, x, y, z in zip(seen, pa, pb, pc))
+            detail = {"predicted (adds sent before release)": pa, "predicted (blocked senders slip in)": pb, "predicted (adds delayed until after the death)": pc,
+                      "observed": seen, "legend": "0 returned, 1 panicked, 2 hung; adds then later calls; the observation must lie in the per-call outcome set of the three schedules"}
         rep.traces += 1
         rep.oblige(ok)
         if ok:
